@@ -181,6 +181,18 @@ def handleObVal (op : String) (args : List String) : String :=
       | _ => "bad-op"
   | "eq" => run1 do let (x, y, env) ← twoAny args; .ok (showBool (Any.eq env x y))
   | "ne" => run1 do let (x, y, env) ← twoAny args; .ok (showBool (!Any.eq env x y))
+  | "eq3" =>
+      -- `a == b`, `b == c`, `a == c`, and the three hash comparisons: transitivity triples
+      match splitAt ";" args with
+      | [ta, tb, tc] => run1 do
+          let (a, t1) ← parseAny ta
+          let (b, t2) ← parseAny tb
+          let (c, t3) ← parseAny tc
+          let env := ((t1.merge t2).merge t3).env
+          let h (x y : Any) := showBool ((x.hashKey env).equiv (y.hashKey env))
+          .ok (showBool (Any.eq env a b) ++ showBool (Any.eq env b c) ++ showBool (Any.eq env a c) ++ ":" ++
+               h a b ++ h b c ++ h a c)
+      | _ => "bad-op"
   | "hasheq" => run1 do
       let (x, y, env) ← twoAny args; .ok (showBool ((x.hashKey env).equiv (y.hashKey env)))
   | "setlen" => run1 do let (x, y, env) ← twoAny args; .ok (toString (setLen2 env x y))
